@@ -185,6 +185,31 @@ func (h *env) topo(kind string, key []byte) {
 			return
 		}
 		h.cluster.Merge(region.Id, next.Id)
+		if h.mockfix {
+			// TiKV gives the merged region the version max(source, target)+1; mocktikv's Merge only adds 1 to the
+			// target's version, so the merged region can be OLDER than a cached neighbour and the client's stale-region
+			// guard (region_cache.go: removeIntersecting) rejects it forever.  Raise the version to the realistic one
+			// with split+merge cycles of the merged region (each adds 2); invisible to the client.
+			want := region.RegionEpoch.GetVersion()
+			if v := next.RegionEpoch.GetVersion(); v > want {
+				want = v
+			}
+			want++
+			for guard := 0; guard < 64; guard++ {
+				cur, _ := h.cluster.GetRegion(region.Id)
+				if cur == nil || cur.RegionEpoch.GetVersion() >= want {
+					break
+				}
+				mid := append(append([]byte{}, cur.StartKey...), 0)
+				if len(cur.EndKey) > 0 && bytes.Compare(mid, cur.EndKey) >= 0 {
+					break
+				}
+				tmp := h.cluster.AllocID()
+				peerIDs := h.cluster.AllocIDs(len(cur.Peers))
+				h.cluster.SplitRaw(cur.Id, tmp, mid, peerIDs, peerIDs[0])
+				h.cluster.Merge(cur.Id, tmp)
+			}
+		}
 	case "leader":
 		var other *metapb.Peer
 		for _, p := range region.Peers {
@@ -852,7 +877,8 @@ func (h *env) exec(line string) (res string, obs string) {
 	if !ok {
 		return "bad-op", ""
 	}
-	ctx := context.Background()
+	ctx, cancelCtx := context.WithTimeout(context.Background(), 3*time.Second)
+	defer cancelCtx()
 	begin := func() {
 		h.mu.Lock()
 		h.inCall, h.n, h.fkCount, h.injs, h.recs = true, 0, map[string]int{}, injs, nil
@@ -871,8 +897,8 @@ func (h *env) exec(line string) (res string, obs string) {
 		if os.Getenv("C11_DEBUG") != "" {
 			fmt.Fprintf(os.Stderr, "error: %+v\n", err)
 		}
-		if strings.Contains(err.Error(), "region unavailable") {
-			return "FAIL err region-unavailable"
+		if strings.Contains(err.Error(), "region unavailable") || strings.Contains(err.Error(), "context deadline exceeded") || strings.Contains(err.Error(), "epoch_not_match") {
+			return "FAIL err region-unavailable" // back-off budget (or the harness' 3 s deadline) used up without progress
 		}
 		return "FAIL err other"
 	}
@@ -1138,7 +1164,11 @@ func (h *env) do(line string) {
 	if i := strings.Index(line, " obs "); i >= 0 {
 		base = line[:i]
 	}
+	t0 := time.Now()
 	res, obs := h.exec(base)
+	if d := time.Since(t0); d > 300*time.Millisecond && os.Getenv("C11_SLOW") != "" {
+		fmt.Fprintf(os.Stderr, "SLOW %v %.200s -> %.80s\n", d, base, res)
+	}
 	w := strings.Fields(base)
 	if len(w) > 0 {
 		run.Count("op:" + w[0])
@@ -1313,13 +1343,14 @@ func (h *env) bigCase(r *vx.Rand) {
 	h.do("scan - - 100 1 inj .")
 }
 
-// quirkCases: the raw mock (mockfix off) on the four documented deviations of its raw handlers
+// quirkCases: the raw mock (mockfix off) on its deviations: raw handlers (4 cases) and the epoch of a merged region
 func (h *env) quirkCases(caseNo *int) {
 	cases := [][]string{
 		{"put 6b 01 0 inj .", "bget 6b,6c inj ."},
 		{"put 6b 01 0 inj .", "scan - - 10 1 inj ."},
 		{"cas 6b nil 01 inj ."},
 		{"put 6b - 0 inj .", "cas 6b nil 02 inj ."},
+		{"topo split 62", "topo split 79", "topo split 64", "delrange 6361 79 inj .", "rscan 7a 6361 2 0 inj 1:merge:63,1:merge:61"},
 	}
 	for _, c := range cases {
 		*caseNo++
